@@ -1,7 +1,7 @@
 LIBS = ["libvpsc", "libavoid"]
 HARNESS = "harness/c02.cpp"
 DRIVER_MODE = "c02"
-LEAN_MODULES = ["AdaptaVerif.Props.C02", "AdaptaVerif.Props.C02Model"]
+LEAN_MODULES = ["AdaptaVerif.Props.C02", "AdaptaVerif.Props.C02Model", "AdaptaVerif.Props.C01Tie"]
 LEVEL = "translation_validation"
 LEVEL_TEXT = ("Per run: the positions returned by vpsc::IncSolver::solve, vpsc::Solver::solve, Avoid::IncSolver::solve, "
               "re-solves after moved desired positions and permuted-order runs are compared (1e-5 * problem scale) with the exact "
@@ -43,6 +43,15 @@ TRUSTED_BASE = ["Lean 4.33 kernel", "axioms: propext, Classical.choice, Quot.sou
 ASSUMPTIONS = ["weights > 0, scales > 0, constraint system feasible (by construction of the generator)",
                "comparison tolerance 1e-5 * max(1, max|desired|, max|gap|) as in the property text"]
 EXHAUSTIVE = {"quick": False, "thorough": False}
+
+def regenerate(ROOT, REPO):
+    """the arithmetic kernels of libvpsc (Variable::position/dfdv, Constraint::slack, PositionStats::addVariable) are regenerated from variable.h / constraint.h / block.cpp by cpp2lean on every run and proved equal to posOf / St.dfdv / St.slack / blockPosn of Model/Vpsc.lean (Props/C01Tie.lean)"""
+    import sys
+    from pathlib import Path
+    sys.path.insert(0, str(Path(ROOT) / "tools" / "cpp2lean"))
+    import jobs
+    return jobs.regenerate(["vpsck"], Path(ROOT), Path(REPO))
+
 
 def plan(tier, seed, searching):
     # a solver that never returns (seen with mutants) must become a CRASH verdict naming the open
